@@ -32,8 +32,8 @@ EXHAUSTIVE = {"quick": False, "thorough": False}
 RULE = (
     "herm: class specification (frozen/slots/cache_hash/exception base/pre-init with and without arguments/post-init/"
     "class on_setattr/which of repr, eq, hash, __init__ vs __attrs_init__ are generated) x 1-6 fields drawn from name sets "
-    "built around the helper naming scheme (x with validator_x/factory_x/converter_x/attribute_x/x_repr/_x_key, names equal "
-    "to fixed helper names and to builtins, names that make _n_key or n_repr coincide with an __attr_..._m name), each field "
+    "built around the helper naming scheme (x with validator_x/factory_x/converter_x/attribute_x/key_x/repr_x/x_repr/_x_key, names equal "
+    "to fixed helper names and to builtins, names that made the old _n_key / n_repr helpers coincide with an __attr_..._m name), each field "
     "with default/factory(takes_self)/converter(plain, takes_self, takes_field, both)/validator/eq key/hash/repr callable/"
     "kw_only/init=False/on_setattr/explicit alias x api (attr.s, define, make_class) x poison mode (none, every referenced "
     "name, every referenced name attrs injects itself); a catalogue first (every name set x every helper kind x poison "
@@ -58,26 +58,25 @@ LEVEL_TEXT = (
     "Lean theorems about an executable model of the globals assembly, helper naming scheme and linecache loop of "
     "src/attr/_make.py. Part A: C17_helpers_win / C17_helpers_module_independent (any class, ANY module dict: a name attrs "
     "injects resolves to attrs's object; C17_pinned_merge_order_loses is the decided counterexample for the old merge order), "
-    "C17_names_disjoint_partial (for ALL strings: every naming function injective; the four __attr_* schemes pairwise "
-    "disjoint; key vs repr disjoint; no scheme yields a fixed helper name; _n_key/n_repr meets an __attr_* name only if n "
-    "starts with an underscore -- the unrestricted pairwise statement is false, C17_K17b_names_coincide, known K17b; "
-    "C17_pinned_attribute_prefix_collides documents the repaired prefix), C17_table_is_intended (no listed hazard => every "
-    "global load of every generated method finds the object its own script bound), C17_module_irrelevant, "
-    "C17_model_meets_spec, witnesses C17_K17a/b/c_witness. Part B: C17_unique_entry_concurrent (invariant over ALL "
-    "interleavings of atomic setdefault steps, any number of threads, any pre-existing cache), C17_source_is_code, "
+    "C17_names_disjoint (for ALL strings: every naming function injective; the six schemes factory/validator/attribute/"
+    "converter/key/repr pairwise disjoint; no scheme yields a fixed helper name; eq/hash and repr agree on their names), "
+    "C17_no_helper_clash, C17_table_is_intended (for every class, field naming and module namespace every global load of "
+    "every generated method finds the object its own script bound -- unconditional), C17_module_irrelevant, "
+    "C17_model_meets_spec (hypothesis: not K17c), witness C17_K17c_witness. Part B: C17_unique_entry_concurrent (invariant "
+    "over ALL interleavings of atomic setdefault steps, any number of threads, any pre-existing cache), C17_source_is_code, "
     "C17_loop_terminates (candidate filenames are pairwise different, pigeonhole), C17_unique_entry (sequential histories "
     "of any length: every definition gets a code object whose filename maps to its own script), "
     "C17_nonatomic_counterexample (decided schedule for look-then-store), C17_cache_model_meets_spec. Naming affixes, "
     "fixed helper names and merge orders are read from the current source (T1), so these theorems are re-checked against "
-    "what the code says now. The model is tied to /repo by a differential correspondence: name-resolution table of the real "
+    "what the code says now; decided counterexamples for the repaired old scheme (K17a, K17b) are in Proofs/C17OldScheme. "
+    "The model is tied to /repo by a differential correspondence: name-resolution table of the real "
     "code objects (dis: LOAD_GLOBAL/LOAD_NAME, resolved by identity) in synthetic modules that pre-bind the referenced names "
     "to a poison object, injected-name sets, behaviour fingerprints (construction in four call shapes, repr, eq/ne, hash "
     "pattern, ordering, setattr, copy, pickle) clean vs poisoned vs neutral field names, inspect.getsource/linecache "
     "recompiled against the running code objects (line tables included), sequential histories and forced thread "
     "interleavings through an instrumented linecache.cache. LOAD_GLOBAL's builtins fallback, inspect.getsource and the "
     "linecache consumers are CPython's: observed, not proved. The cached-property __getattr__ script of slotted classes "
-    "(own isolated globals) is not covered. Known findings: K17a (a module-level NotImplemented shadows the builtin in "
-    "__eq__), K17b (a _n_key / n_repr helper name equal to an __attr_*_m helper name), K17c (an __init__ parameter named "
+    "(own isolated globals without the module dict) is not covered. Known finding: K17c (an __init__ parameter named "
     "like a global or local helper the body uses)."
 )
 
@@ -92,6 +91,7 @@ NAME_SETS = [
     ["x", "y", "z"],
     ["x", "validator_x", "factory_x", "converter_x", "attribute_x"],
     ["x", "x_repr", "_x_key", "x_key", "_x"],
+    ["x", "key_x", "repr_x", "_attr_key_x", "_attr_repr_x"],
     ["x", "_x", "x_", "x_x"],
     ["attr_dict", "NOTHING", "_config", "_compat", "x"],
     ["_cached_setattr_get", "_setattr", "_inst_dict", "_obj_setattr", "y"],
@@ -102,7 +102,8 @@ NAME_SETS = [
     ["_key", "_repr", "a_b", "_p", "x"],
     ["other", "result", "value", "item", "cls"],
 ]
-# pairs that make a key / repr helper name coincide with an __attr_ helper name (known finding K17b)
+# pairs whose key / repr helper name coincided with an __attr_ helper name under the old `_n_key` / `n_repr` scheme
+# (K17b, repaired): regular cases now
 COLLIDE_KEY = [("_attr_factory_foo", "foo_key", "factory"), ("_attr_validator_foo", "foo_key", "validator"),
                ("_attr_converter_foo", "foo_key", "converter"), ("_attr_attribute_foo", "foo_key", "validator")]
 COLLIDE_REPR = [("__attr_factory_foo", "foo_repr", "factory"), ("__attr_validator_foo", "foo_repr", "validator"),
@@ -217,7 +218,7 @@ def rand_cls(rng):
 
 
 def rand_poison(rng):
-    return rng.choice(["helpersOnly"] * 9 + ["all", "none", "none"])
+    return rng.choice(["all"] * 6 + ["helpersOnly"] * 3 + ["none"] * 2)
 
 
 def herm_case(rng, names, cls=None, poison=None, api=None, fields=None):
